@@ -6,6 +6,7 @@ CONSTANTS
   Gens = {1, 2, 3}
   WithSimple = TRUE
   MaxEvents = 8
+  MaxEventsM = 6
   MaxCrashes = 1
   CLens = {1, 3}
   MLens = {1, 2, 3, 4, 5}
